@@ -216,6 +216,20 @@ def s_hstack_promote(xi):
     h[0, 0] = 0.5
     return h, h[0, 0] * 2
 
+def s_col_broadcast(m, lab):
+    ar = numpy.arange(m.shape[0])
+    d = m[ar, lab]
+    g = m - d[:, numpy.newaxis]
+    return g, g[0, 0], (g[0] < 0).sum()
+
+def s_varargs(a, b):
+    def pack(first, *rest):
+        return first, len(rest), rest
+    return pack(a), pack(a, b), pack(a, b, a)
+
+def s_int_of_float(a):
+    return int(a[0]), int(a[1]), int(a[2])
+
 def s_nan_compare(a):
     v = a[0]
     return v == 0, v != 0, v < 1, v >= 1
@@ -412,6 +426,9 @@ def inputs():
         "s_cumsum": [(2, 3), (0, 5)],
         "s_hstack_promote": [(numpy.arange(6).reshape(3, 2),), (numpy.arange(6, dtype=float).reshape(3, 2),)],
         "s_nan_compare": [(A(numpy.nan, 1),), (A(0, 1),)],
+        "s_col_broadcast": [(numpy.array([[1., 4., 2.], [0., 3., 5.]]), A(1, 0, dt=int)), (numpy.array([[2., 1.]]), A(1, dt=int))],
+        "s_varargs": [(1, 2)],
+        "s_int_of_float": [(A(2.0, 2.7, -2.7),)],
         "s_argmax_rows": [(numpy.array([[0., 1., 0.], [2., 2., 1.], [0., 0., 0.]]),)],
         "s_isclose": [(1.0, 1.0 + 1e-9), (1e-9, 0.0), (1e-7, 0.0), (5.0, 6.0)],
         "s_min_max": [(A(3, -1, 2), numpy.array([[1., 5.], [7., 2.]]))],
